@@ -46,5 +46,6 @@ RULE = (
     "attempt and no write happens afterwards, every connection open at close is closed by the client and the close Deferred fires exactly once in the step "
     "that delivers the last connectionLost (synchronously when none), caches are empty, no delayed call remains. non-trivial = close with >=1 call pending and "
     "connections/attempts on >=2 distinct hosts; distinct = distinct trace."
+    ' Scripts close the client in busy states (requests in flight on several brokers with held replies, a broker in reconnect back-off incl. synchronous refusals, a connection attempt pending); half of the configurations have discovery off and a leader for every partition so that busy states are reached that do not run into the recorded bootstrap-path finding.'
 )
 ASSUMPTIONS = []
